@@ -5,8 +5,8 @@
 
     Same granularity as M1/Client.v: one label = one handler or one pump
     iteration; [qrun] runs the pump to quiescence after every external label.
-    The pump's loop variables (rdy, clientID, clientQueue) persist across
-    iterations as in the Go code.  No proofs in this file. *)
+    The pump's loop variables rdy and clientQueue are reset at the top of every
+    iteration (since the repair of F1; before, they persisted across iterations).  No proofs in this file. *)
 From Verif Require Import Base.Prelude M1.Containers.
 
 Inductive sev :=
@@ -177,7 +177,7 @@ Definition sstep (l : slab) (s : sv) : sv :=
         | c :: rest =>
             let s1 := upd_reqC s rest in
             match qof s1 c with
-            | None => upd_loc (upd_ctxm s1 (a_del (ctxm s1) c)) (rdy s1) c None
+            | None => upd_loc (upd_ctxm s1 (a_del (ctxm s1) c)) false c None
             | Some _ =>
                 let r := match a_get (ctxm s1) c with None => true | Some CActive => false | Some CInactive => true end in
                 stail (upd_loc s1 r c (Some c))
@@ -189,7 +189,8 @@ Definition sstep (l : slab) (s : sv) : sv :=
         match timerC s with
         | [] => s
         | c :: rest =>
-            let s1 := upd_loc (upd_timerC s rest) (rdy s) c (curQ s) in
+            (* the loop variables are reset at the top of every iteration (repair of F1): the timeout case dispatches nothing *)
+            let s1 := upd_loc (upd_timerC s rest) false c None in
             let s2 := ctx_deactivate s1 c in
             if negb (pendof s2 c =? 0) then
               match qof s2 c with
@@ -211,7 +212,7 @@ Definition sstep (l : slab) (s : sv) : sv :=
             let s2 := ctx_deactivate s1 c in
             match qof s2 c with
             | Some _ => stail (upd_loc s2 true c (Some c))
-            | None => stail (upd_loc s2 (rdy s2) c None)
+            | None => stail (upd_loc s2 false c None)
             end
         end
       else s
